@@ -7,6 +7,7 @@ import (
 	"sort"
 	"strings"
 
+	gcmd "github.com/virus-evolution/gofasta/cmd"
 	"github.com/virus-evolution/gofasta/pkg/closest"
 	"github.com/virus-evolution/gofasta/pkg/sam"
 	"github.com/virus-evolution/gofasta/pkg/snps"
@@ -58,6 +59,8 @@ type Opts struct {
 	ThreshTarg  int      `json:"threshtarg,omitempty"`
 	NoFill      bool     `json:"nofill,omitempty"`
 	DistPush    int      `json:"distpush,omitempty"`
+	// cli: the real cobra command line (files are looked up in Case.Files)
+	Args []string `json:"args,omitempty"`
 }
 
 // Case is the explicit input of one command invocation.
@@ -183,6 +186,8 @@ func Exec(c *Case, rc *RunCfg) *Result {
 			res.Err = closest.Closest(in("query"), in("target"), o.Measure, out, o.Threads)
 		case "closestn":
 			res.Err = closest.ClosestN(o.N, o.MaxDist, in("query"), in("target"), o.Measure, out, o.Table, o.Threads)
+		case "cli":
+			res.Err = gcmd.VerifExecute(o.Args)
 		case "updownlist":
 			res.Err = updown.List(in("ref"), in("query"), out)
 		case "topranking":
